@@ -23,6 +23,7 @@ SFTP file object
 
 from binascii import hexlify
 from collections import deque
+import errno
 import socket
 import threading
 import time
@@ -278,12 +279,14 @@ class SFTPFile(BufferedFile):
         """
         self.flush()
         if whence == self.SEEK_SET:
-            self._realpos = self._pos = offset
+            target = offset
         elif whence == self.SEEK_CUR:
-            self._pos += offset
-            self._realpos = self._pos
+            target = self._pos + offset
         else:
-            self._realpos = self._pos = self._get_size() + offset
+            target = self._get_size() + offset
+        if target < 0:
+            raise IOError(errno.EINVAL, "Negative seek position")
+        self._realpos = self._pos = target
         self._rbuffer = bytes()
 
     def stat(self):
